@@ -18,6 +18,83 @@ from harness.common import Ctx, Finding, SearchResult, Stream, exc_enum, hx
 
 PROP = 'C10'
 
+CASE_BUDGET_S = float(__import__('os').environ.get('VERIF_C10_CASE_BUDGET', '20'))
+
+
+class CaseTimeout(Exception):
+	"""A single real-code call exceeded its budget (a hang of the real code becomes a reported disagreement / finding)."""
+
+
+class Budget:
+	"""Per-call wall budget for real-code calls (SIGALRM; the harness runs them in the main thread)."""
+
+	def __init__(self, seconds: float = CASE_BUDGET_S) -> None:
+		self.seconds = seconds
+		self._old: Any = None
+
+	def __enter__(self) -> 'Budget':
+		import signal
+		try:
+			def on_alarm(signum: int, frame: Any) -> None:
+				raise CaseTimeout(f'real-code call exceeded {self.seconds}s')
+			self._old = signal.signal(signal.SIGALRM, on_alarm)
+			signal.setitimer(signal.ITIMER_REAL, self.seconds)
+		except (ValueError, AttributeError):  # not the main thread / no SIGALRM: run unbudgeted
+			self._old = None
+		return self
+
+	def __exit__(self, *a: Any) -> None:
+		import signal
+		if self._old is not None:
+			signal.setitimer(signal.ITIMER_REAL, 0)
+			signal.signal(signal.SIGALRM, self._old)
+
+
+class Deadline:
+	"""Total wall deadline of one stream / search: generation stops, what was generated is still checked."""
+
+	def __init__(self, ctx: Ctx, name: str, quick_s: float, thorough_s: float) -> None:
+		import time
+		self.ctx, self.name = ctx, name
+		self.t_end = time.time() + (thorough_s if ctx.thorough else quick_s)
+		self.hit = False
+
+	def over(self) -> bool:
+		import time
+		if not self.hit and time.time() > self.t_end:
+			self.hit = True
+			self.ctx.notes.append(f'deadline hit in {self.name}: generation stopped early (what was generated is still checked)')
+		return self.hit
+
+
+def guarded_search(fn: Any) -> Any:
+	"""A search never crashes the check: an exception that escapes its own handlers (real code raising where the laws say it
+	cannot, or a result the oracle cannot digest) is a finding with the traceback tail as input."""
+	import functools
+	import traceback
+
+	@functools.wraps(fn)
+	def run(ctx: Ctx) -> SearchResult:
+		try:
+			return fn(ctx)
+		except Exception as e:  # noqa: BLE001
+			res = SearchResult(f'{fn.__name__} (aborted by an unexpected exception)')
+			res.findings.append(Finding(key=f'unexpected-exception:{fn.__name__}:{exc_enum(e)}', what=f'{fn.__name__} was aborted by {exc_enum(e)}: {str(e)[:200]}',
+				replay={'traceback': traceback.format_exc()[-3000:]}))
+			return res
+	return run
+
+
+def safe_case(label: str, build: Any) -> tuple[Any, list[str], list[str]]:
+	"""Build one correspondence case; an exception of the real code while building it (outside the per-op handlers) becomes a
+	reported disagreement instead of a crash of the check: the model answers `ok 1` to `tree _`."""
+	try:
+		with Budget(4 * CASE_BUDGET_S):
+			return build()
+	except Exception as e:  # noqa: BLE001
+		return ({'kind': f'case-error:{label}', 'entries': 0, 'root': 'case-error', 'ops': 0}, ['tree\t_'], [f'real code raised {exc_enum(e)} while the case was built: {str(e)[:200]}'])
+
+
 FEATS = ['always', 'never', 'cc>=1', 'cc>=2', 'cc>=3', 'idx', 'd>=2', 'd>=3', 'd>=4', 'pt=a', 'pt=b', 'pt=root', 'pt=list', 'fc=a', 'fc=tok', 'fc=__empty__']
 
 
@@ -210,6 +287,14 @@ def expand_safety(nodes: Any, via: str) -> tuple[bool, bool]:
 
 
 def real_op(finder: Any, nodes: Any, root: Any, pf: dict[str, Any], op: list[str], with_class: bool) -> str:
+	try:
+		with Budget():
+			return _real_op(finder, nodes, root, pf, op, with_class)
+	except Exception as e:  # noqa: BLE001 - including CaseTimeout
+		return exc_enum(e)
+
+
+def _real_op(finder: Any, nodes: Any, root: Any, pf: dict[str, Any], op: list[str], with_class: bool) -> str:
 	try:
 		kind = op[0]
 		if kind == 'pathfy':
@@ -422,6 +507,14 @@ def stream_corpus(ctx: Ctx) -> Stream:
 	for name, w in load_corpus().items():
 		if w.get('kind') not in ('dict', 'history'):
 			continue
+		cases.append(safe_case(name, lambda name=name, w=w: _corpus_case(name, w)))
+	st = common.correspond('tree-corpus', cases, 'tree', classify=lambda d: d['kind'])
+	st.note = 'regression witness r(list(x) list_comp) and witness trees of C10.expand_relativefy_counterexample / expand_depth3_counterexample / memo_key_counterexample: expand, expandp, expandsafe, values, groupby on every path, or the recorded query history'
+	return st
+
+
+def _corpus_case(name: str, w: dict[str, Any]) -> tuple[Any, list[str], list[str]]:
+	if True:
 		root, nodes, table = nodes_of_dict(w['tree'], w['resolvable'])
 		finder = shared_finder()
 		pf = finder.full_pathfy(root)
@@ -443,10 +536,7 @@ def stream_corpus(ctx: Ctx) -> Stream:
 				real.append('ok')
 			else:
 				real.append(real_op(finder, nodes, root, pf, op, True))
-		cases.append(({'kind': 'corpus:' + name, 'entries': len(pf)}, lines, real))
-	st = common.correspond('tree-corpus', cases, 'tree', classify=lambda d: d['kind'])
-	st.note = 'regression witness r(list(x) list_comp) and witness trees of C10.expand_relativefy_counterexample / expand_depth3_counterexample: expand, expandp, expandsafe, values, groupby on every path'
-	return st
+		return ({'kind': 'corpus:' + name, 'entries': len(pf)}, lines, real)
 
 
 # ---------------------------------------------------------------------------------------------
@@ -462,6 +552,14 @@ def gen_path_string(rng: random.Random) -> str:
 
 
 def real_ep(op: list[str]) -> str:
+	try:
+		with Budget():
+			return _real_ep(op)
+	except Exception as e:  # noqa: BLE001 - including CaseTimeout
+		return exc_enum(e)
+
+
+def _real_ep(op: list[str]) -> str:
 	from rogw.tranp.syntax.ast.path import EntryPath
 	try:
 		k, a = op[0], op[1:]
@@ -515,7 +613,10 @@ def stream_path_algebra(ctx: Ctx) -> Stream:
 	from rogw.tranp.syntax.ast.entry import EntryOfDict
 	rng = ctx.sub_rng('path-algebra')
 	cases = []
+	dl = Deadline(ctx, 'path-algebra', 20, 120)
 	for i in range(ctx.scale(60, 600)):
+		if dl.over():
+			break
 		strings: list[str] = []
 		if i % 2 == 0:
 			walk = trees.walk_entries(EntryOfDict(trees.gen_dict_tree(rng, 2 + i % 4, 3 + i % 9)))
@@ -545,9 +646,12 @@ def stream_random(ctx: Ctx) -> Stream:
 	rng = ctx.sub_rng('tree-random')
 	n = ctx.scale(120, 1500)
 	cases = []
+	dl = Deadline(ctx, 'tree-random', 30, 300)
 	for i in range(n):
+		if dl.over():
+			break
 		depth = 2 + (i % 4) if not ctx.thorough else 2 + (i % 5)
-		cases.append(case_random(rng, depth, 3 + (i % 4)))
+		cases.append(safe_case(f'random#{i}', lambda depth=depth, i=i: case_random(rng, depth, 3 + (i % 4))))
 	st = common.correspond('tree-random', cases, 'tree', classify=lambda d: f"entries<{10 ** len(str(d['entries']))}")
 	st.note = 'EntryOfDict trees (repeated/unique/empty/prefix-sharing tags), synthetic node classes with path- and child-dependent match_feature, ops: pathfy, pluck (valid+mutated), id, exists, children, siblings, parent, ancestor, by, expand, expandp, values, groupby (depths -2..5), expandsafe (the side conditions of expand_spec / expand_spec_full), clear'
 	return st
@@ -559,15 +663,22 @@ def stream_real(ctx: Ctx) -> Stream:
 	table, tags = real_tables()
 	files = trees.real_source_files(ctx.thorough, rng, ctx.scale(4, 40))
 	cases = []
+	dl = Deadline(ctx, 'tree-real', 30, 300)
 	for f in files:
+		if dl.over():
+			break
 		try:
-			root = trees.parse_real(app, f)
+			with Budget(3 * CASE_BUDGET_S):
+				root = trees.parse_real(app, f)
+				subs = subtrees_of(root, 400)
+		except CaseTimeout:
+			ctx.notes.append(f'tree-real: parsing {f} exceeded its budget (skipped)')
+			continue
 		except Exception:  # noqa: BLE001 - a file outside the grammar is not a tree-addressing case
 			continue
-		subs = subtrees_of(root, 400)
 		rng.shuffle(subs)
 		for e in subs[:ctx.scale(6, 25)]:
-			cases.append(case_real(rng, e, table, tags))
+			cases.append(safe_case(f, lambda e=e: case_real(rng, e, table, tags)))
 	st = common.correspond('tree-real', cases, 'tree', classify=lambda d: d['root'])
 	st.note = f'statement-level lark subtrees (8..400 entries) of {len(files)} real modules; ops: pathfy, pluck (valid+mutated), id, childrenp, parentp, siblingsp, expandp, values, groupby, expandsafe with the real symbol mapping as resolvable-tag set'
 	return st
@@ -601,6 +712,7 @@ def _law_violation(finder: Any, root: Any, walk: list[tuple[str, Any]], pf: dict
 	return None
 
 
+@guarded_search
 def search_laws(ctx: Ctx) -> SearchResult:
 	from rogw.tranp.syntax.ast.entry import EntryOfDict
 	from rogw.tranp.syntax.ast.finder import ASTFinder
@@ -615,21 +727,26 @@ def search_laws(ctx: Ctx) -> SearchResult:
 		roots.append((f'random#{i}', EntryOfDict(trees.gen_dict_tree(rng, 2 + i % 5, 2 + i % 6))))
 	for f in trees.real_source_files(ctx.thorough, rng, ctx.scale(6, 60)):
 		try:
-			roots.append((f, trees.parse_real(app, f)))
+			with Budget(3 * CASE_BUDGET_S):
+				roots.append((f, trees.parse_real(app, f)))
 		except Exception:  # noqa: BLE001
 			continue
 	seen = set()
 	earlier: list[tuple[str, Any]] = []
+	dl = Deadline(ctx, 'search_laws', 25, 240)
 	for name, root in roots:
+		if dl.over():
+			break
 		res.cases += 1
 		walk = trees.walk_entries(root)
-		pf = finder.full_pathfy(root)
 		sig = (len(walk), tuple(p for p, _ in walk[:50]))
 		if sig not in seen:
 			seen.add(sig)
 		bad: str | None = None
 		try:
-			bad = _law_violation(finder, root, walk, pf)
+			with Budget(3 * CASE_BUDGET_S):
+				pf = finder.full_pathfy(root)
+				bad = _law_violation(finder, root, walk, pf)
 		except Exception as e:  # noqa: BLE001 - the laws say these calls succeed: an exception is a violation, not a harness failure
 			bad = f'real code raised {exc_enum(e)} while checking the addressing laws: {str(e)[:200]}'
 		if bad:
@@ -651,6 +768,7 @@ def search_laws(ctx: Ctx) -> SearchResult:
 	return res
 
 
+@guarded_search
 def search_resolve_order(ctx: Ctx) -> SearchResult:
 	"""Real node classes of real modules under permuted query orders (the property's history quantifier)."""
 	from rogw.tranp.syntax.ast.entrypoints import Entrypoints
@@ -660,14 +778,18 @@ def search_resolve_order(ctx: Ctx) -> SearchResult:
 	files = trees.real_source_files(ctx.thorough, rng, ctx.scale(3, 20))
 	perms = ctx.scale(6, 24)
 	seen = set()
+	dl = Deadline(ctx, 'search_resolve_order', 30, 300)
 	for f in files:
+		if dl.over():
+			break
 		with open(f, encoding='utf-8') as fh:
 			src = fh.read()
 		app = common.MemApp(ctx.tmpdir())
 		baseline: dict[str, str] | None = None
 		for k in range(perms):
 			try:
-				ep = app.entrypoint(src)
+				with Budget(3 * CASE_BUDGET_S):
+					ep = app.entrypoint(src)
 			except Exception:  # noqa: BLE001
 				break
 			nodes = ep._Node__nodes
@@ -684,18 +806,21 @@ def search_resolve_order(ctx: Ctx) -> SearchResult:
 			for p in order:
 				kind = rng.random() if k > 2 else 0.0
 				try:
-					if kind < 0.7:
-						got[p] = type(nodes.by(p)).__name__
-					elif kind < 0.85:
-						nodes.children(p)
-						got[p] = type(nodes.by(p)).__name__
-					else:
-						try:
-							nodes.parent(p)
-						except Exception:  # noqa: BLE001
-							pass
-						got[p] = type(nodes.by(p)).__name__
-				except Exception as e:  # noqa: BLE001
+					with Budget():
+						if kind < 0.7:
+							got[p] = type(nodes.by(p)).__name__
+						elif kind < 0.85:
+							nodes.children(p)
+							got[p] = type(nodes.by(p)).__name__
+						else:
+							try:
+								nodes.parent(p)
+							except CaseTimeout:
+								raise
+							except Exception:  # noqa: BLE001
+								pass
+							got[p] = type(nodes.by(p)).__name__
+				except Exception as e:  # noqa: BLE001 - including CaseTimeout
 					got[p] = exc_enum(e)
 			res.cases += 1
 			seen.add((f, k))
@@ -716,6 +841,7 @@ def search_resolve_order(ctx: Ctx) -> SearchResult:
 	return res
 
 
+@guarded_search
 def search_queries(ctx: Ctx) -> SearchResult:
 	"""Parent/children/siblings/ancestor of one shared Nodes instance, after arbitrary query histories, against an
 	independent computation from the tree walk (the property: queries agree with each other and with the tree)."""
@@ -726,7 +852,11 @@ def search_queries(ctx: Ctx) -> SearchResult:
 	rng = ctx.sub_rng('queries')
 	res = SearchResult('Nodes queries after random histories vs independent tree walk')
 	seen = set()
+	dl = Deadline(ctx, 'search_queries', 20, 180)
+	pset: set[str] = set()
 	for i in range(ctx.scale(60, 800)):
+		if dl.over():
+			break
 		t = trees.gen_dict_tree(rng, 2 + i % 4, 2 + i % 5)
 		root = EntryOfDict(t)
 		walk = trees.walk_entries(root)
@@ -771,15 +901,16 @@ def search_queries(ctx: Ctx) -> SearchResult:
 			tag = tag_of(rng.choice(elems(p))) if rng.random() < 0.8 else rng.choice(tags_all)
 			history.append((kind, p, tag))
 			try:
-				if kind == 'children':
-					got = 'ok ' + ','.join(n.full_path for n in nodes.children(p))
-				elif kind == 'siblings':
-					got = 'ok ' + ','.join(n.full_path for n in nodes.siblings(p))
-				elif kind == 'parent':
-					got = 'ok ' + nodes.parent(p).full_path
-				else:
-					got = 'ok ' + nodes.ancestor(p, tag).full_path
-			except Exception as e:  # noqa: BLE001
+				with Budget():
+					if kind == 'children':
+						got = 'ok ' + ','.join(n.full_path for n in nodes.children(p))
+					elif kind == 'siblings':
+						got = 'ok ' + ','.join(n.full_path for n in nodes.siblings(p))
+					elif kind == 'parent':
+						got = 'ok ' + nodes.parent(p).full_path
+					else:
+						got = 'ok ' + nodes.ancestor(p, tag).full_path
+			except Exception as e:  # noqa: BLE001 - including CaseTimeout
 				got = exc_enum(e)
 			want = expect(kind, p, tag)
 			if got != want:
@@ -811,6 +942,7 @@ def _safe_from_walk(via: str, paths: list[str], has_child: Any) -> bool:
 	return all(via not in p[len(via):] for p in under[1:] if not has_child(p))
 
 
+@guarded_search
 def search_expand(ctx: Ctx) -> SearchResult:
 	"""expand / values / group_by of the real Nodes on random trees against the tree itself (document-order walk), on the
 	domain where C10.expand_spec(_full) says they agree; outside it the latent relativefy hazard is only counted."""
@@ -851,7 +983,10 @@ def search_expand(ctx: Ctx) -> SearchResult:
 		latent.append(f"{name}: real expand = {got}, tree says {w['tree_says']}, reproduced = {got != w['tree_says']}")
 		bump('latent-witness-reproduced' if got != w['tree_says'] else 'latent-witness-not-reproduced')
 
+	dl = Deadline(ctx, 'search_expand', 25, 240)
 	for i in range(ctx.scale(70, 1200)):
+		if dl.over():
+			break
 		t = trees.gen_dict_tree(rng, 2 + i % 5, 2 + i % 4)
 		root = EntryOfDict(t)
 		walk = trees.walk_entries(root)
@@ -868,7 +1003,8 @@ def search_expand(ctx: Ctx) -> SearchResult:
 		bad = None
 		for via in vias:
 			try:
-				got = [n.full_path for n in nodes.expand(via)]
+				with Budget():
+					got = [n.full_path for n in nodes.expand(via)]
 				rel_safe = _safe_from_walk(via, paths, has_child)
 				capped = ideal_expand(via, paths, has_child, is_res, 3)
 				full = ideal_expand(via, paths, has_child, is_res)
@@ -921,6 +1057,7 @@ def _classify_expand_diff(via: str, got: list[str], full: list[str], capped: lis
 	return 'expand-disagrees-with-tree'
 
 
+@guarded_search
 def search_expand_real(ctx: Ctx) -> SearchResult:
 	"""Every entry path of real parse trees: Nodes.expand(via) (= Node._under_expand()) against the independent
 	"nearest resolvable descendants + terminals without a resolvable ancestor", with no depth cap."""
@@ -936,23 +1073,37 @@ def search_expand_real(ctx: Ctx) -> SearchResult:
 	seen_keys: set[str] = set()
 	hist: dict[str, int] = {}
 	limit = ctx.scale(500, 4000)
+	dl = Deadline(ctx, 'search_expand_real', 30, 300)
+	start_tag, below = real_alphabet()
+	outside: dict[str, int] = {}
 	for name, src in sources:
+		if dl.over():
+			break
 		app = common.MemApp(ctx.tmpdir())
 		try:
-			ep = app.entrypoint(src if src.endswith('\n') else src + '\n')
-		except Exception:  # noqa: BLE001 - outside tranp's grammar
+			with Budget(3 * CASE_BUDGET_S):
+				ep = app.entrypoint(src if src.endswith('\n') else src + '\n')
+		except Exception:  # noqa: BLE001 - outside tranp's grammar (or over budget)
 			continue
 		nodes = ep._Node__nodes
 		cache = nodes._Nodes__entries
 		resolver = nodes._Nodes__resolver
-		paths = [p for p, _ in trees.walk_entries(cache.by(ep.full_path))]
+		walk = trees.walk_entries(cache.by(ep.full_path))
+		paths = [p for p, _ in walk]
+		# the generated tag alphabet (Generated/TagAlphabet.lean) really covers the parse trees: hypothesis of expand_spec_grammar
+		for k, (_, e) in enumerate(walk):
+			if (k == 0 and e.name != start_tag) or (k > 0 and e.name not in below):
+				outside[e.name] = outside.get(e.name, 0) + 1
 		has_child = lambda p: cache.by(p).has_child
 		vias = paths if len(paths) <= limit else [paths[0], *rng.sample(paths, limit)]
 		for via in vias:
+			if dl.over():
+				break
 			res.cases += 1
 			try:
-				got = [n.full_path for n in nodes.expand(via)]
-			except Exception as e:  # noqa: BLE001
+				with Budget():
+					got = [n.full_path for n in nodes.expand(via)]
+			except Exception as e:  # noqa: BLE001 - including CaseTimeout
 				got = [exc_enum(e)]
 			full = ideal_expand(via, paths, has_child, resolver.can_resolve)
 			if got == full:
@@ -968,7 +1119,19 @@ def search_expand_real(ctx: Ctx) -> SearchResult:
 			res.samples.append({'source': name, 'paths': len(paths), 'checked': len(vias)})
 	res.distinct = res.cases
 	res.histogram = hist
+	if outside:
+		ALPHABET_MISSES.update(outside)
+		ctx.notes.append(f'entry names outside the generated tag alphabet: {outside}')
 	return res
+
+
+ALPHABET_MISSES: dict[str, int] = {}
+
+
+def real_alphabet() -> tuple[str, set[str]]:
+	from translate import gen_tag_alphabet
+	start, below = gen_tag_alphabet.alphabet()
+	return start, set(below)
 
 
 # ---------------------------------------------------------------------------------------------
@@ -1011,6 +1174,12 @@ STATEMENTS = {
 	'path_joined': 'EntryPath.joined concatenates the element lists',
 	'path_parent_tag': 'EntryPath.parent_tag = tag of the last but one element',
 	'path_contains': 'EntryPath.contains / consists_of_only speak about the element tags with indices stripped',
+	'relativefy_exact': 'DSN.relativefy / EntryPath.relativefy (origin.split(starts)[1]) return the true relative path whenever the string starts does not occur again to its right',
+	'relativefy_safe_of_root_name': 'tag-level sufficient condition: if the root tag has a non-digit character and is a substring of no tag below the root (RootNameFree, decidable) then RelativefySafe holds at every path of the tree',
+	'grammar_root_name_free': 'decided over the GENERATED tag alphabet of data/grammar.lark (rule names, aliases, terminal names, __empty__): file_input occurs inside none of them',
+	'expand_spec_grammar': 'expand_spec with no string-level hypothesis for every tree rooted at the start symbol whose entries carry names of the generated alphabet (every real parse tree; checked against real trees on every run)',
+	'path_valid': 'EntryPath.valid of an encoded path = it has at least one element',
+	'path_escaped': 'EntryPath.escaped_origin is injective on paths free of backslashes: dropping the escapes gives the path back',
 	'resolve_list_order': 'resolving a list of paths (children / siblings / expand results) gives the same classes from every reachable instance cache as from the empty one',
 	'memo_keys_injective': 'the memo keys GENERATED from query.py determine the query: same key => same query (ancestor.{via}#{tag}: for via free of #)',
 	'memo_transparent': 'on one Nodes instance, after any history of queries (memoised or not, failing or not) every query returns what the memo-free evaluation on a fresh resolver returns, for every world (Memoize.get keeps the first factory per key; keys generated from the source)',
@@ -1024,8 +1193,9 @@ def run(ctx: Ctx) -> int:
 	translate_ok, translate_msg = True, ''
 	with ctx.timed('translate'):
 		try:
-			from translate import gen_nodes_memo
+			from translate import gen_nodes_memo, gen_tag_alphabet
 			ctx.generated_tables.extend(gen_nodes_memo.generate())
+			ctx.generated_tables.extend(gen_tag_alphabet.generate())
 		except Exception as e:  # noqa: BLE001 - an unrecognised shape of the memo calls breaks the tie (DESIGN §2.5)
 			translate_ok, translate_msg = False, f'{type(e).__name__}: {e}'
 			ctx.notes.append(f'translator failed: {translate_msg}')
@@ -1035,6 +1205,9 @@ def run(ctx: Ctx) -> int:
 		streams = [stream_corpus(ctx), stream_path_algebra(ctx), stream_random(ctx), stream_real(ctx)]
 	with ctx.timed('search'):
 		searches = [search_laws(ctx), search_queries(ctx), search_expand(ctx), search_expand_real(ctx), search_resolve_order(ctx)]
+	if ALPHABET_MISSES and translate_ok:
+		# a real parse tree carries a name the generated alphabet does not list: the tie behind expand_spec_grammar is broken
+		translate_ok, translate_msg = False, f'entry names of real parse trees outside Generated/TagAlphabet.lean: {sorted(ALPHABET_MISSES)[:10]}'
 	return common.finish(ctx, proof, streams, searches,
 		translate_ok=translate_ok, translate_msg=translate_msg,
 		statements=STATEMENTS,
@@ -1044,10 +1217,10 @@ def run(ctx: Ctx) -> int:
 				'the EntryPath algebra acts as list operations on elements (break_tag_join for every index, path_first_last, path_shift, path_joined, path_parent_tag, path_contains); ids follow document order (ids_preorder, cache_by); children / parent / siblings / ancestor agree with the tree and with each other '
 				'(children_agree, children_entries, parent_nearest, parent_of_child, siblings_agree, siblings_root, ancestor_nearest — on the path lists before class resolution); '
 				'group_by for every depth, values (subtree_enumeration, groupBy_depth/unbounded/zero, values_document_order); '
-				'expand agrees with the tree under RelativefySafe (expand_spec, expand_spec_full) and provably not without it / beyond three levels '
+				'expand agrees with the tree under RelativefySafe (expand_spec, expand_spec_full), which is discharged for the shipped grammar (relativefy_exact, relativefy_safe_of_root_name, grammar_root_name_free over the generated alphabet, expand_spec_grammar), and provably not without it / beyond three levels '
 				'(expand_relativefy_counterexample, expand_depth3_counterexample: latent, synthetic tag sets only); '
 				'the node class is independent of earlier queries (resolve_order, resolve_order_queries, resolve_list_order) and the query memo of Nodes is transparent for every history (memo_keys_injective over the generated keys, memo_transparent; memo_key_counterexample for via containing #) — all on the model, for all trees / worlds',
-			'correspondence_only': 'EntryPath.escaped_origin, EntryPath.valid and the algebra on malformed strings (stream path-algebra); the Memo/Memoize semantics (first factory kept, exception not cached) as modelled in Model/NodesMemo.lean; the real match_feature functions are pure functions of (tree, path) — validated by query permutations on real modules; '
+			'correspondence_only': 'the EntryPath algebra on malformed strings (stream path-algebra); the Memo/Memoize semantics (first factory kept, exception not cached) as modelled in Model/NodesMemo.lean; the real match_feature functions are pure functions of (tree, path) — validated by query permutations on real modules; '
 				'match_feature implementations that call back into Nodes fill the real memo / instance cache with extra entries the model does not create (observationally equal by memo_transparent)',
 			'search_only': 'that no expandable entry of a real parse tree lies deeper than three levels below its node and that RelativefySafe holds there (every entry path of real parse trees: expand = uncapped tree computation)',
 		},
@@ -1057,7 +1230,7 @@ def run(ctx: Ctx) -> int:
 			'memo_transparent: no ancestor query with a # in via (true of every path over lark names)',
 			'expand_spec: RelativefySafe (relativefy(via) yields the true relative tags for the terminals below via); decidable and re-computed on the real objects by the expandsafe op',
 		],
-		trusted=['EntryOfDict/EntryOfLark expose the tree faithfully (C15 covers the lark side)'])
+		trusted=['EntryOfDict/EntryOfLark expose the tree faithfully (C15 covers the lark side)', 'lark inlines every rule whose name starts with an underscore (such names are left out of the generated tag alphabet; every entry name of the real parse trees visited by the search is checked to be in the alphabet)'])
 
 
 def replay(ctx: Ctx, path: str) -> int:
